@@ -179,6 +179,7 @@ class Final(_Proc):
     produced and the hook does not fail."""
     name = "pysnark.runtime:final"
     layer = "gadget"
+    history_ok = False        # "exactly once": an earlier call of final() IS a second proving step
     modules = ("pysnark.runtime",)
 
     def configs(self, tier):
